@@ -8,6 +8,7 @@ evidence/<id>.json.  Exit 0 = held on everything explored, 1 = VIOLATION (printe
 import sys, os, json, time, argparse, importlib, hashlib, collections, traceback
 HERE = os.path.dirname(os.path.abspath(__file__))
 sys.path.insert(0, HERE)
+OUT = os.environ.get('VERIF_OUT_DIR', HERE)      # evidence/ and replays/ (redirected when a seeded change is being tried)
 from vlib import build
 from mirse import runner
 from mirse.runner import Job
@@ -39,10 +40,24 @@ class Ctx:
             self.engines[key] = eng
         return key
 
-    def native(self, features=build.DEFAULT_FEATURES, release=False):
-        k = (build.fkey(features), release)
+    def engine_multi(self, key, parts, src_globs, features=build.DEFAULT_FEATURES):
+        """one engine over the MIR of several crates (library + server binary)"""
+        if key not in self.engines:
+            texts = []; closures = {}
+            for package, target, feats in parts:
+                (mir, cl), dt = build.dump_mir(feats, package, target)
+                self.mir_s += dt; texts.append(mir); closures.update(cl)
+            from mirse import models_ng, models_chan, models_misc
+            eng = runner.make_engine(('\n'.join(texts), closures), build.REPO, features=build.closure(features), src_globs=src_globs,
+                                     extra_models=(models_ng, models_chan, models_misc))
+            runner.register_engine(key, eng)
+            self.engines[key] = eng
+        return key
+
+    def native(self, features=build.DEFAULT_FEATURES, release=False, extra=()):
+        k = (build.fkey(features), release, tuple(extra))
         if k not in self.natives:
-            path, dt = build.build_native(features, release)
+            path, dt = build.build_native(features, release, extra)
             self.native_s += dt
             self.natives[k] = build.Native(path)
         return self.natives[k]
@@ -91,10 +106,10 @@ def run_custom(mod, ctx, prop, tier, seed, t0, args):
         if (prop, k) in known: known_hit.append((k, known[(prop, k)]))
         else: new_viol.append((k, v, detail))
     for k, f in known_hit: print('KNOWN-FINDING: property=%s %s' % (prop, f.get('what', k)))
-    os.makedirs(os.path.join(HERE, 'replays'), exist_ok=True)
+    os.makedirs(os.path.join(OUT, 'replays'), exist_ok=True)
     for k, v, detail in new_viol[:40]:
         h = hashlib.sha1(k.encode()).hexdigest()[:10]
-        path = os.path.join(HERE, 'replays', '%s-%s.json' % (prop, h))
+        path = os.path.join(OUT, 'replays', '%s-%s.json' % (prop, h))
         json.dump({'property': prop, 'key': k, 'violation': v, 'native': detail, 'rerun': 'python3-vt /verif/check.py %s --replay %s' % (prop, path)}, open(path, 'w'), indent=1, default=str)
         print('VIOLATION property=%s replay=%s' % (prop, path))
         print('   what: %s | %s' % (v.get('kind'), str(v.get('what'))[:300]))
@@ -104,8 +119,8 @@ def run_custom(mod, ctx, prop, tier, seed, t0, args):
     cov['encoding_source'] = 'native library built from %s working tree this run (%.1fs); MIR dump %.1fs' % (build.REPO, ctx.native_s, ctx.mir_s)
     ev = {'property_id': prop, 'tier': tier, 'seed': seed, 'level': r['level'], 'coverage': cov, 'assumptions': r.get('assumptions', []),
           'wall_s': round(time.time() - t0, 1), 'violations': len(new_viol)}
-    os.makedirs(os.path.join(HERE, 'evidence'), exist_ok=True)
-    json.dump(ev, open(os.path.join(HERE, 'evidence', prop + '.json'), 'w'), indent=1, default=str)
+    os.makedirs(os.path.join(OUT, 'evidence'), exist_ok=True)
+    json.dump(ev, open(os.path.join(OUT, 'evidence', prop + '.json'), 'w'), indent=1, default=str)
     print('%s tier=%s seed=%d: %s in %.1fs' % (prop, tier, seed, r.get('summary', ''), time.time() - t0))
     if new_viol: return 1
     if r.get('inconclusive'):
@@ -195,10 +210,10 @@ def run_check(mod, ctx, prop, tier, seed, t0, args):
     for k, f in known_hit:
         print('KNOWN-FINDING: property=%s %s' % (prop, f.get('what', k)))
     replay_paths = []
-    os.makedirs(os.path.join(HERE, 'replays'), exist_ok=True)
+    os.makedirs(os.path.join(OUT, 'replays'), exist_ok=True)
     for k, v, detail in new_viol:
         h = hashlib.sha1(k.encode()).hexdigest()[:10]
-        path = os.path.join(HERE, 'replays', '%s-%s.json' % (prop, h))
+        path = os.path.join(OUT, 'replays', '%s-%s.json' % (prop, h))
         json.dump({'property': prop, 'key': k, 'violation': v, 'native': detail,
                    'rerun': 'python3-vt /verif/check.py %s --replay %s' % (prop, path)}, open(path, 'w'), indent=1, default=str)
         replay_paths.append(path)
@@ -248,8 +263,8 @@ def run_check(mod, ctx, prop, tier, seed, t0, args):
     cov.update(extra_cov)
     ev = {'property_id': prop, 'tier': tier, 'seed': seed, 'level': spec.get('level', 'model_checking'), 'coverage': cov,
           'assumptions': spec.get('assumptions', []), 'wall_s': round(wall, 1), 'violations': len(new_viol)}
-    os.makedirs(os.path.join(HERE, 'evidence'), exist_ok=True)
-    json.dump(ev, open(os.path.join(HERE, 'evidence', prop + '.json'), 'w'), indent=1, default=str)
+    os.makedirs(os.path.join(OUT, 'evidence'), exist_ok=True)
+    json.dump(ev, open(os.path.join(OUT, 'evidence', prop + '.json'), 'w'), indent=1, default=str)
     print('%s tier=%s seed=%d: %d paths (%s), %d forks, %d solver queries (%.1fs), %d validated traces, %d counterexamples (%d new, %d known) in %.1fs'
           % (prop, tier, seed, paths, dict(status), agg['forks'], agg['solver_calls'], agg['solver_time'], nval, len(by_key), len(new_viol), len(known_hit), wall))
     if new_viol: return 1
